@@ -959,6 +959,11 @@ func expKey(name string) (string, bool) {
 	switch {
 	case strings.HasPrefix(kind, "panic."), strings.HasPrefix(kind, "frame."), strings.Contains(kind, ".autoframe."):
 		return "", false
+	case strings.HasPrefix(kind, "inv."), strings.HasPrefix(kind, "unwind"):
+		// auxiliary obligations of a loop (invariant holds initially / is preserved; unrolling was enough): they
+		// carry no part of a property statement. When a maintainer replaces the loop by a library call they are
+		// no longer generated, and the clauses they supported are proved (or not) without them.
+		return "", false
 	}
 	if strings.HasPrefix(kind, "pre.") || strings.HasPrefix(kind, "callassert.") {
 		return siteSuffix.ReplaceAllString(name, ""), true
